@@ -85,6 +85,8 @@ pub enum Act {
     BadProvide { user: String, kind: String },
     /// a swap declaring more of a native offer asset than is attached
     BadSwap { user: String, dir: u8 },
+    /// somebody bank-sends the pool coins of a look-alike denom (asset `idx`'s denom in upper case)
+    SendLookalike { idx: u8 },
     Swap { user: String, dir: u8, amount: u128, loose: bool },
     Collect { user: String },
     /// through fee_collector::CollectFees{Contracts}
@@ -161,6 +163,11 @@ impl PairScn {
         for u in USERS.iter().chain([MALLORY].iter()) {
             fund(w, &a0, u, BIG_FUND);
             fund(w, &a1, u, BIG_FUND);
+        }
+        for a in [&a0, &a1] {
+            if let AssetInfo::NativeToken { denom } = a {
+                w.mint_native(MALLORY, 1_000_000_000, &denom.to_uppercase());
+            }
         }
         let pair = create_pair(w, &hub, [a0, a1], r.fees.pool(), self.pair_type()).expect("create pair");
         H { hub, pair, root: r.clone() }
@@ -337,6 +344,13 @@ impl Scenario for PairScn {
             if h.pair.assets.iter().any(|a| matches!(a, AssetInfo::NativeToken { .. })) {
                 v.push(Act::BadProvide { user: MALLORY.to_string(), kind: "native_labelled_as_token".to_string() });
                 v.push(Act::BadProvide { user: MALLORY.to_string(), kind: "underfunded_native".to_string() });
+                for idx in 0..2u8 {
+                    if let AssetInfo::NativeToken { denom } = &h.pair.assets[idx as usize] {
+                        if (self.property == "C01" || self.property == "C03") && w.native_balance(&h.pair.addr, &denom.to_uppercase()) == 0 {
+                            v.push(Act::SendLookalike { idx });
+                        }
+                    }
+                }
                 for dir in 0..2u8 {
                     if matches!(h.pair.assets[dir as usize], AssetInfo::NativeToken { .. }) {
                         v.push(Act::BadSwap { user: MALLORY.to_string(), dir });
@@ -436,6 +450,12 @@ impl Scenario for PairScn {
                         cx.count("withdraw:rejected");
                         cx.note(|| format!("rejected: {}", e.msg()));
                     }
+                }
+            }
+            Act::SendLookalike { idx } => {
+                if let AssetInfo::NativeToken { denom } = &p.assets[*idx as usize] {
+                    let r = w.exec_cosmos(MALLORY, cosmwasm_std::BankMsg::Send { to_address: p.addr.clone(), amount: vec![cosmwasm_std::coin(10_001, denom.to_uppercase())] }.into());
+                    cx.count(if r.is_ok() { "lookalike:sent" } else { "lookalike:failed" });
                 }
             }
             Act::BadSwap { user, dir } => {
